@@ -292,8 +292,19 @@ theorem removeCommon_suf (a b : Expr) (w : Word) :
 
 /-! ### single code points and character classes -/
 
-/-- every grapheme of every literal is a plain `Grapheme::from(s)` with `s ≠ ""` -/
-def PlainCluster (c : Cluster) : Prop := ∀ g ∈ c, ∃ s, s ≠ [] ∧ g = Grapheme.ofStr s
+/-- a grapheme as S2–S4 produce them: non-empty characters, a positive count range, nested repetitions only in a unit of several
+graphemes.  Without `-r` every grapheme is `Grapheme::from(s)` with `s ≠ ""` (`plainish_ofStr`) -/
+def _root_.Grexv.Grapheme.Plainish (g : Grapheme) : Prop :=
+  g.chars ≠ [] ∧ (∀ s ∈ g.chars, s ≠ []) ∧ 1 ≤ g.min ∧ g.min ≤ g.max ∧ (g.chars.length = 1 → g.reps = [])
+
+theorem plainish_ofStr (s : Str) (hs : s ≠ []) : (Grapheme.ofStr s).Plainish := by
+  refine ⟨by simp [Grapheme.ofStr, Grapheme.chars], ?_, Nat.le_refl _, Nat.le_refl _, fun _ => rfl⟩
+  intro x hx
+  simp only [Grapheme.ofStr, Grapheme.chars, List.mem_cons, List.mem_nil_iff, or_false] at hx
+  subst hx; exact hs
+
+/-- every grapheme of every literal is well-shaped -/
+def PlainCluster (c : Cluster) : Prop := ∀ g ∈ c, g.Plainish
 
 theorem escapeChar_ne_nil (c : Nat) (b : Bool) : escapeChar c b ≠ [] := by
   unfold escapeChar
@@ -303,54 +314,113 @@ theorem escapeChar_ne_nil (c : Nat) (b : Bool) : escapeChar c b ≠ [] := by
     · repeat (first | exact List.cons_ne_nil _ _ | apply List.append_ne_nil_of_left_ne_nil)
     · repeat (first | exact List.cons_ne_nil _ _ | apply List.append_ne_nil_of_left_ne_nil)
 
-theorem graphemeCharCount_pos (s : Str) (hs : s ≠ []) (esc : Bool) : 0 < graphemeCharCount (Grapheme.ofStr s) esc := by
+theorem escLen_ge (s : Str) : s.length ≤ (s.flatMap fun c => escapeChar c false).length := by
+  induction s with
+  | nil => simp
+  | cons c cs ih =>
+    simp only [List.flatMap_cons, List.length_append, List.length_cons]
+    have : 0 < (escapeChar c false).length := List.length_pos_iff.mpr (escapeChar_ne_nil c false)
+    omega
+
+/-- the contribution of one string of a grapheme to `char_count` -/
+def strCount (esc : Bool) (s : Str) : Nat := if esc then (s.flatMap fun c => escapeChar c false).length else s.length
+
+theorem graphemeCharCount_eq (g : Grapheme) (esc : Bool) : graphemeCharCount g esc = (g.chars.map (strCount esc)).sum := by
+  cases esc
+  · simp only [graphemeCharCount, Bool.false_eq_true, ite_false]
+    congr 1
+  · simp only [graphemeCharCount, ite_true]
+    congr 1
+
+theorem strCount_pos (esc : Bool) (s : Str) (hs : s ≠ []) : 0 < strCount esc s := by
+  have h1 : 0 < s.length := List.length_pos_iff.mpr hs
+  cases esc
+  · simpa [strCount] using h1
+  · have := escLen_ge s
+    simp only [strCount, ite_true]; omega
+
+theorem strCount_one (esc : Bool) (s : Str) (h : strCount esc s = 1) (hs : s ≠ []) : ∃ ch, s = [ch] := by
+  have hle : s.length ≤ 1 := by
+    cases esc
+    · simp [strCount] at h; omega
+    · have := escLen_ge s
+      simp only [strCount, ite_true] at h; omega
   cases s with
   | nil => exact absurd rfl hs
   | cons c cs =>
-    cases esc
-    · simp [graphemeCharCount, Grapheme.ofStr, Grapheme.chars]
-    · simp only [graphemeCharCount, Grapheme.ofStr, Grapheme.chars, ite_true, List.map_cons, List.map_nil,
-        List.sum_cons, List.sum_nil, List.flatMap_cons, List.length_append]
-      have := escapeChar_ne_nil c false
-      have : 0 < (escapeChar c false).length := List.length_pos_iff.mpr this
-      omega
-
-theorem graphemeCharCount_one (s : Str) (esc : Bool) (h : graphemeCharCount (Grapheme.ofStr s) esc = 1) :
-    ∃ ch, s = [ch] := by
-  cases s with
-  | nil => cases esc <;> simp [graphemeCharCount, Grapheme.ofStr, Grapheme.chars] at h
-  | cons c cs =>
     cases cs with
     | nil => exact ⟨c, rfl⟩
-    | cons d ds =>
-      exfalso
-      cases esc
-      · simp [graphemeCharCount, Grapheme.ofStr, Grapheme.chars] at h
-      · simp only [graphemeCharCount, Grapheme.ofStr, Grapheme.chars, ite_true, List.map_cons, List.map_nil,
-          List.sum_cons, List.sum_nil, List.flatMap_cons, List.length_append] at h
-        have h1 : 0 < (escapeChar c false).length := List.length_pos_iff.mpr (escapeChar_ne_nil c false)
-        have h2 : 0 < (escapeChar d false).length := List.length_pos_iff.mpr (escapeChar_ne_nil d false)
-        omega
+    | cons d ds => simp at hle
+
+theorem sum_pos_of_all_pos (l : List Nat) (h : ∀ x ∈ l, 0 < x) : l.length ≤ l.sum := by
+  induction l with
+  | nil => simp
+  | cons a as ih =>
+    have := h a List.mem_cons_self
+    have := ih (fun x hx => h x (List.mem_cons_of_mem _ hx))
+    simp only [List.length_cons, List.sum_cons]; omega
+
+theorem graphemeCharCount_pos (g : Grapheme) (hg : g.Plainish) (esc : Bool) : 0 < graphemeCharCount g esc := by
+  rw [graphemeCharCount_eq]
+  have h1 := sum_pos_of_all_pos (g.chars.map (strCount esc)) (by
+    intro x hx
+    obtain ⟨s, hs, rfl⟩ := List.mem_map.mp hx
+    exact strCount_pos esc s (hg.2.1 s hs))
+  have h2 : 0 < g.chars.length := List.length_pos_iff.mpr hg.1
+  simp only [List.length_map] at h1
+  omega
+
+theorem graphemeCharCount_one (g : Grapheme) (hg : g.Plainish) (esc : Bool) (h : graphemeCharCount g esc = 1) :
+    ∃ ch, g.chars = [[ch]] := by
+  rw [graphemeCharCount_eq] at h
+  have hall : ∀ x ∈ g.chars.map (strCount esc), 0 < x := by
+    intro x hx
+    obtain ⟨s, hs, rfl⟩ := List.mem_map.mp hx
+    exact strCount_pos esc s (hg.2.1 s hs)
+  have h1 := sum_pos_of_all_pos _ hall
+  simp only [List.length_map] at h1
+  cases hc : g.chars with
+  | nil => exact absurd hc hg.1
+  | cons s rest =>
+    cases rest with
+    | nil =>
+      rw [hc] at h
+      simp only [List.map_cons, List.map_nil, List.sum_cons, List.sum_nil, Nat.add_zero] at h
+      obtain ⟨ch, rfl⟩ := strCount_one esc s h (hg.2.1 s (by rw [hc]; exact List.mem_cons_self))
+      exact ⟨ch, rfl⟩
+    | cons s2 rest2 =>
+      rw [hc] at h1 h
+      simp only [List.length_cons] at h1
+      omega
 
 /-- a literal that `is_single_codepoint` accepts is one plain grapheme of one code point -/
 theorem single_lit (cfg : Config) (c : Cluster) (hp : PlainCluster c) (h : isSingleCodepoint cfg (.lit c) = true) :
     ∃ ch, c = [Grapheme.ofStr [ch]] := by
   simp only [isSingleCodepoint, Bool.and_eq_true, beq_iff_eq] at h
-  obtain ⟨hcount, _⟩ := h
+  obtain ⟨hcount, hmax⟩ := h
   cases c with
   | nil => simp [clusterCharCount] at hcount
   | cons g gs =>
-    obtain ⟨s, hs, rfl⟩ := hp g (List.mem_cons_self)
-    have hg := graphemeCharCount_pos s hs cfg.esc
+    have hpg := hp g (List.mem_cons_self)
+    have hg := graphemeCharCount_pos g hpg cfg.esc
     cases gs with
     | nil =>
       simp only [clusterCharCount, List.map_cons, List.map_nil, List.sum_cons, List.sum_nil, Nat.add_zero] at hcount
-      obtain ⟨ch, rfl⟩ := graphemeCharCount_one s cfg.esc hcount
-      exact ⟨ch, rfl⟩
+      obtain ⟨ch, hch⟩ := graphemeCharCount_one g hpg cfg.esc hcount
+      simp only [List.head?_cons, Option.map_some, Option.some.injEq] at hmax
+      refine ⟨ch, ?_⟩
+      cases g with
+      | mk chars reps mn mx =>
+        simp only [Grapheme.chars, Grapheme.max] at hch hmax
+        obtain ⟨_, _, h3, h4, h5⟩ := hpg
+        simp only [Grapheme.chars, Grapheme.min, Grapheme.max, Grapheme.reps] at h3 h4 h5
+        have hr : reps = [] := h5 (by rw [hch]; rfl)
+        have hmn : mn = 1 := by omega
+        subst hch hmax hr hmn
+        rfl
     | cons g2 gs2 =>
       exfalso
-      obtain ⟨s2, hs2, rfl⟩ := hp g2 (by simp)
-      have hg2 := graphemeCharCount_pos s2 hs2 cfg.esc
+      have hg2 := graphemeCharCount_pos g2 (hp g2 (by simp)) cfg.esc
       simp only [clusterCharCount, List.map_cons, List.sum_cons] at hcount
       omega
 
